@@ -492,22 +492,24 @@ spec_runner!(run_s2, specs::s2::SpecTwo, specs::s2::SPECTWO_TEXT, "SpecTwo");
 spec_runner!(run_s3, specs::s3::SpecThree, specs::s3::SPECTHREE_TEXT, "SpecThree");
 spec_runner!(run_s4, specs::s4::SpecFour, specs::s4::SPECFOUR_TEXT, "SpecFour");
 spec_runner!(run_s5, specs::s5::SpecFive, specs::s5::SPECFIVE_TEXT, "SpecFive");
+spec_runner!(run_s6, specs::s6::SpecSix, specs::s6::SPECSIX_TEXT, "SpecSix");
 
 pub fn run(args: &Args, rec: &mut Recorder) {
-    rec.rule = "evaluation = one IF_DATA block handled through the types generated by a2ml_specification! (five fixed specifications compiled with the in-tree a2lmacros, together using every A2ML construct): instances generated from the generated text constant X_TEXT (read by an independent A2ML reader) must be valid under X_TEXT (as built-in argument and as in-file A2ML), load_from_ifdata must yield a value, store_to_ifdata followed by load_from_ifdata must yield an equal value, and the text written after load+store must hold the original tokens; IF_DATA that is valid under a structurally mutated in-file definition is handed to load_from_ifdata, which must not panic. distinct_nontrivial = distinct documents by content hash".into();
+    rec.rule = "evaluation = one IF_DATA block handled through the types generated by a2ml_specification! (six fixed specifications compiled with the in-tree a2lmacros, together using every A2ML construct): instances generated from the generated text constant X_TEXT (read by an independent A2ML reader) must be valid under X_TEXT (as built-in argument and as in-file A2ML), load_from_ifdata must yield a value, store_to_ifdata followed by load_from_ifdata must yield an equal value, and the text written after load+store must hold the original tokens; IF_DATA that is valid under a structurally mutated in-file definition is handed to load_from_ifdata, which must not panic. distinct_nontrivial = distinct documents by content hash".into();
     rec.assumptions.push("the macro's non-standard `ident` member type is not used (its text constant is not A2ML); value equality is the generated PartialEq; the generic trees before and after store are not compared".into());
     let total: u64 = if args.thorough { 2_000_000 } else { 40_000 };
     run_cases(args, rec, total, crate::util::reset_budget, |rng, case, rec| {
-        match case % 5 {
-            0 => run_s1(rng, rec, case / 5),
-            1 => run_s2(rng, rec, case / 5),
-            2 => run_s3(rng, rec, case / 5),
-            3 => run_s4(rng, rec, case / 5),
-            _ => run_s5(rng, rec, case / 5),
+        match case % 6 {
+            0 => run_s1(rng, rec, case / 6),
+            1 => run_s2(rng, rec, case / 6),
+            2 => run_s3(rng, rec, case / 6),
+            3 => run_s4(rng, rec, case / 6),
+            4 => run_s5(rng, rec, case / 6),
+            _ => run_s6(rng, rec, case / 6),
         }
         None
     });
-    for s in ["SpecOne", "SpecTwo", "SpecThree", "SpecFour", "SpecFive"] {
+    for s in ["SpecOne", "SpecTwo", "SpecThree", "SpecFour", "SpecFive", "SpecSix"] {
         rec.floor(&format!("spec.{s}"), 10);
     }
     rec.floor("instances.conforming", 100);
